@@ -35,7 +35,7 @@ DATA_CARRIERS = [
     "list_none", "list_nan", "tuple_none", "nd_f8", "nd_f4", "nd_obj",
     "ma_nan", "series", "series_idx", "series_obj", "dask",
 ]
-# masked array whose masked cells hold finite junk: see known finding F-11
+# masked array whose masked cells hold finite junk (finding F-11, fixed), list holding np.ma.masked
 DATA_CARRIERS_EXTRA = ["ma_junk", "list_masked"]
 TIME_CARRIERS = [
     "dt64ns", "dt64s", "dt64ms", "pydt", "stamps", "dtindex", "series_naive", "series_utc",
